@@ -3,7 +3,7 @@ import refs_cases
 
 ID = "C08"
 PROPERTIES_FILE = "Properties/C08.v"
-COQ_TARGETS = ["Properties/C08.vo", "Refs/Cases.vo", "Refs/RefStep.vo", "Refs/FenceProofs.vo"]
+COQ_TARGETS = ["Properties/C08.vo", "Refs/Cases.vo", "Refs/RefStep.vo", "Refs/FenceProofs.vo", "Refs/TreeStep.vo"]
 LEVEL = "proof"
 TECHNIQUE = ("Coq theorems (induction over all request histories) over a hand-written sequential Gallina model of the path tree "
              "(childNodes/childRefs/childRefNames/deleted, renameChildTo, notifyNameChange, markChildDeleted) composed with a path-addressed "
@@ -12,8 +12,11 @@ LEVEL_TEXT = ("Proved in Coq for every backend and state: fencing - a request th
               "(EINVAL; ENOENT for a walk to a child) with no backend call in the handler (8 single-fid request kinds, child walks, Tlink's guard); "
               "markChildDeleted marks EVERY path node at or below the victim (no assumption on the shape of the node graph) so every fidRef there is "
               "fenced, leaves the name without a path node, and a later binding gets a fresh non-deleted node; an xattr fid cannot be cloned; the "
-              "refs at a moved entry are told their new parent File and name. NOT proved in Coq (C08_tree_inv, C08_coherent, C08_notified beyond "
-              "that): covered by the differential only - every run replays generated create/mkdir/walk/clone/rename/renameat/unlinkat/remove/clunk "
+              "refs at a moved entry are told their new parent File and name. Proved by induction over ALL histories for EVERY backend: C08_tree_inv "
+              "(childRefs/childRefNames agree, registered refs are live and sit under their parent's node, live non-deleted refs are registered, "
+              "childNodes injective, ids in range). Partial (Refs/Coherent*.v, Refs/Notified*.v): C08_coherent for histories without Tremove/Trename/Trenameat "
+              "(Tunlinkat included), C08_notified for the fidRefs below a moved directory. NOT proved: tree_closed (deleted downward closed, no panic; needs B2), full C08_coherent / "
+              "C08_notified - covered by the differential: every run replays generated create/mkdir/walk/clone/rename/renameat/unlinkat/remove/clunk "
               "histories (depth <= 4, many fids on equal and nested paths, renames over existing targets, subtree moves, refused renames, re-created "
               "names) on the real server against the Go twin of PathFS, asks GetAttr through every bound fid after each change (inode id must be the "
               "one the fid was bound to), checks that fenced requests reach no backend call, runs a gated unlink-vs-walk scenario, and compares "
